@@ -16,8 +16,9 @@ ASSUME = [
     "not recorded",
     "one user = one LimitedValve shared by its sessions (MakeValve result passed to every SessionConfig); that "
     "server.ActiveUser hands the same valve to each session (userpanel.go / activeuser.go) is read, not exercised here",
-    "time is the virtual clock of testing/synctest: sleepers wake exactly on time; on a real clock late wake-ups only "
-    "lower the throughput (TokenBucket.tla, Prompt = FALSE, upper bound only)",
+    "time is the virtual clock of testing/synctest: sleepers wake exactly on time. On a real clock a sleeper that wakes late "
+    "sends together with the next one: TLC refutes the bound for Prompt = FALSE (excess <= one message per waiter); "
+    "scheduling latency is outside the statement",
     "low-rate relaxation: where a single message is larger than the burst (2 kB/s with 16 kB frames) the bound checked "
     "is rate*t + burst + that one message; TLC refutes the unrelaxed bound for such configurations",
     "juju/ratelimit's Take arithmetic is modelled from its source (v1.0.2); rates are those for which "
@@ -58,16 +59,12 @@ def run(ctx):
         pos["mc_intervals"] = pool.submit(mc, ctx, "mc_intervals", W2, "{1, 2}", "{1, 2}", "{3}", "{0, 1}", "{1, 3}", 5, history=True,
                                           invs="TypeOK UpperVQ UpperIntervals NotStarved")
         pos["mc_lowrate"] = pool.submit(mc, ctx, "mc_lowrate", W2, "{1}", "{1, 2}", "{2, 3}", "{0, 1}", "{1, 3, 5}", 10, relax=True)
-        pos["mc_late"] = pool.submit(mc, ctx, "mc_late", W2, "{1, 2}", "{1, 2}", "{3}", "{0}", "{1, 2, 3}", 6, prompt=False,
-                                     invs="TypeOK UpperVQ")
     else:
         pos["mc_main"] = pool.submit(mc, ctx, "mc_main", W3, "{1, 2}", "{1, 2, 3}", "{3, 4, 5}", "{0, 1, 2}", "{1, 2, 3}", 12, workers=8)
         pos["mc_main_1w"] = pool.submit(mc, ctx, "mc_main_1w", "{w1}", "{1, 2, 3}", "{1, 2, 3}", "{2, 3, 4, 5, 6}", "{0, 1}", "{1, 2, 3, 4}", 20)
         pos["mc_intervals"] = pool.submit(mc, ctx, "mc_intervals", W2, "{1, 2}", "{1, 2}", "{3, 4}", "{0, 1}", "{1, 2, 3}", 6, history=True,
                                           invs="TypeOK UpperVQ UpperIntervals NotStarved", workers=wk)
         pos["mc_lowrate"] = pool.submit(mc, ctx, "mc_lowrate", W3, "{1, 2}", "{1, 2}", "{2, 3}", "{0, 1}", "{1, 3, 5}", 12, relax=True, workers=wk)
-        pos["mc_late"] = pool.submit(mc, ctx, "mc_late", W3, "{1, 2}", "{1, 2}", "{3, 4}", "{0}", "{1, 2, 3}", 8, prompt=False,
-                                     invs="TypeOK UpperVQ", workers=wk)
     # 2. the bound is not vacuous: each of these must be refuted
     neg_args = dict(expect_violation=True, invs="TypeOK UpperVQ")
     neg = {
@@ -78,6 +75,8 @@ def run(ctx):
                                               capf=2, **neg_args),
         "neg_lowrate_unrelaxed": pool.submit(mc, ctx, "neg_lowrate_unrelaxed", W2, "{1}", "{1, 2}", "{2, 3}", "{0, 1}", "{1, 3, 5}", 10,
                                              relax=False, **neg_args),
+        # documents the virtual-clock assumption: a sleeper that wakes late bunches its message with the next ones
+        "neg_late_wakeup": pool.submit(mc, ctx, "neg_late_wakeup", W2, "{1, 2}", "{1, 2}", "{3}", "{0}", "{1, 2, 3}", 6, prompt=False, **neg_args),
     }
     # 3. the real code on the virtual clock
     nfiles = 3 if q else 6
